@@ -133,12 +133,66 @@ class Ctx:
         self.probes = Counter()
         self.faults = Counter()
         self.states = set()
-        self.sim_time = 0
+        self._sim_time = 0
+        self.fleet = None        # bystanders (sim/bystander.py), stepped once per unit of simulated time
+        self.fork_plan = None    # {"at": k, "how": "deepcopy" | "pickle"}: snapshot / restore of the detector before its k-th step
+        self._fork_calls = 0
+        self._old_processes = []
         self.near_ties = 0
         self.nontrivial = False
         self.notes = Counter()
         self._h = hashlib.sha1()
         self.step = -1
+
+    # -- simulated time = accepted calls into menelaus; every tick lets one bystander move (if the case has a fleet)
+    @property
+    def sim_time(self):
+        return self._sim_time
+
+    @sim_time.setter
+    def sim_time(self, v):
+        if self.fleet is not None:
+            from sim import seams
+
+            if not seams.PAUSED[0]:
+                seams.PAUSED[0] = True
+                try:
+                    for _ in range(max(0, min(3, v - self._sim_time))):
+                        self.fleet.tick()
+                finally:
+                    seams.PAUSED[0] = False
+        self._sim_time = v
+
+    # -- crash / restart with durable state: the detector is snapshotted (copy.deepcopy or a pickle round trip) at an arbitrary
+    #    instant and the run continues on the restored copy; the process that was snapshotted goes on for a moment (reset)
+    #    and must not be able to reach the copy.  A detector that cannot be snapshotted that way is left alone (noted).
+    def maybe_fork(self, det):
+        plan = self.fork_plan
+        if not plan or plan.get("done"):
+            return det
+        if plan.get("when") == "drift":      # snapshot taken exactly while the detector reports drift (restart still pending)
+            if getattr(det, "drift_state", None) != "drift":
+                return det
+        self._fork_calls += 1
+        if self._fork_calls != plan["at"]:
+            return det
+        plan["done"] = True
+        import copy
+        import pickle
+
+        try:
+            new = copy.deepcopy(det) if plan["how"] == "deepcopy" else pickle.loads(pickle.dumps(det))
+        except Exception as e:  # noqa: BLE001
+            self.note(f"snapshot_not_possible:{plan['how']}:{type(e).__name__}")
+            return det
+        self.fault("snapshot_restore_" + plan["how"])
+        try:
+            if hasattr(det, "reset"):
+                det.reset()
+        except Exception:  # noqa: BLE001
+            pass
+        self._old_processes.append(det)
+        return new
 
     # -- recording (never draws randomness, never reads a clock)
     def obs(self, *vals):
@@ -230,6 +284,16 @@ def run_case(mod, case, known_sigs=()):
         with warnings.catch_warnings():
             warnings.simplefilter("ignore")
             with np.errstate(all="ignore"):
+                if isinstance(case, dict) and case.get("bystanders") is not None:
+                    from sim import bystander, seams
+
+                    seams.PAUSED[0] = True
+                    try:
+                        ctx.fleet = bystander.Fleet(mod.PROP, case["bystanders"])
+                    finally:
+                        seams.PAUSED[0] = False
+                if isinstance(case, dict) and case.get("fork"):
+                    ctx.fork_plan = dict(case["fork"])
                 mod.run(case, ctx)
     except Violation as v:
         out["violation"] = v.as_dict()
@@ -243,6 +307,10 @@ def run_case(mod, case, known_sigs=()):
         np.random.set_state(state)
     if isinstance(case, dict) and case.get("drift_positions"):
         ctx.fault("environment_regime_change_in_workload", len(case["drift_positions"]))
+    if ctx.fleet is not None:
+        ctx.fault("bystander_instance_update_interleaved", ctx.fleet.moves)
+        ctx.probe("runs_with_bystander_fleet")
+        ctx.fleet = None
     out.update(
         digest=ctx.digest(),
         nontrivial=bool(ctx.nontrivial),
@@ -266,6 +334,16 @@ def make_case(mod, prop, scenario, verif_seed, i, tier):
     case["scenario"] = scenario
     case["run_seed"] = rs
     case["index"] = i
+    # one run in four shares its process with a fleet of bystander instances (other users of the library)
+    every = 4 if scenario not in getattr(mod, "INDEXED_SCENARIOS", ()) else 16    # (index-derived enumerations are thousands of tiny runs)
+    if "bystanders" not in case and getattr(mod, "BYSTANDERS", True) and derive(rs, "bystanders?") % every == 0:
+        case["bystanders"] = derive(rs, "bystander-seed") % (2**31)
+    # one run in five snapshots and restores its detector at an arbitrary instant (checks that support it call ctx.maybe_fork)
+    if "fork" not in case and getattr(mod, "FORKS", False) and derive(rs, "fork?") % 5 == 0:
+        d = derive(rs, "fork-at")
+        case["fork"] = {"at": 1 + (d % 9 if d % 3 else (d // 7) % 120), "how": "deepcopy" if (d // 3) % 2 else "pickle"}
+        if (d // 11) % 3 == 0:
+            case["fork"] = {"at": 1 + (d // 13) % 3, "how": case["fork"]["how"], "when": "drift"}
     return case
 
 
